@@ -287,3 +287,66 @@ func storesInto(al *ssa.Alloc, field FieldRef) []ssa.Value {
 	}
 	return vals
 }
+
+// Delta is a counter update: field (or what a pointer field points to) changed by a constant.
+type Delta struct {
+	Field   FieldRef
+	Base    ssa.Value
+	Pointee bool
+	Atomic  bool
+	By      int64
+	Instr   ssa.Instruction
+	Result  ssa.Value // value of the counter after the update (atomic.Add result, or the stored sum)
+}
+
+// DeltaOf recognises x.f++, x.f--, x.f += k, atomic.AddIntN(&x.f | x.p, k).
+func (p *Prog) DeltaOf(ins ssa.Instruction) (Delta, bool) {
+	switch x := ins.(type) {
+	case *ssa.Store:
+		fa, ok := x.Addr.(*ssa.FieldAddr)
+		if !ok {
+			return Delta{}, false
+		}
+		fr, base, _ := fieldOf(fa)
+		bo, ok := strip(x.Val, false).(*ssa.BinOp)
+		if !ok || (bo.Op != token.ADD && bo.Op != token.SUB) {
+			return Delta{}, false
+		}
+		k, isC := constInt(bo.Y)
+		old := bo.X
+		if !isC && bo.Op == token.ADD {
+			k, isC = constInt(bo.X)
+			old = bo.Y
+		}
+		if !isC {
+			return Delta{}, false
+		}
+		f2, b2, ok := loadedField(strip(old, false))
+		if !ok || !sameField(fr, f2) || AccessPath(b2).String() != AccessPath(base).String() {
+			return Delta{}, false
+		}
+		if bo.Op == token.SUB {
+			k = -k
+		}
+		return Delta{Field: fr, Base: base, By: k, Instr: ins, Result: x.Val}, true
+	case *ssa.Call:
+		c := p.CallOf(x)
+		if atomicOpOf(c.Name) != "Add" || len(c.Args) != 2 {
+			return Delta{}, false
+		}
+		k, isC := constInt(c.Args[1])
+		if !isC {
+			return Delta{}, false
+		}
+		if fa, ok := c.Args[0].(*ssa.FieldAddr); ok {
+			fr, base, _ := fieldOf(fa)
+			return Delta{Field: fr, Base: base, Atomic: true, By: k, Instr: ins, Result: x}, true
+		}
+		if fr, base, ok := fieldPointerLoad(c.Args[0]); ok {
+			return Delta{Field: fr, Base: base, Pointee: true, Atomic: true, By: k, Instr: ins, Result: x}, true
+		}
+		// captured pointer (closure over *int32)
+		return Delta{}, false
+	}
+	return Delta{}, false
+}
